@@ -29,9 +29,10 @@
  *       W<k> N       wait until the case-wide sequence counter is >= k (at most 4 s; a run in which a wait timed out is
  *                    repeated, at most twice) / increment it
  *       H<k>         arm: at this thread's next unlock of ctx->lyb_hash_lock increment the counter, wait until it is >= k,
- *                    then report whether the error table arena (err_ht->recs) was reallocated meanwhile. While the thread
- *                    waits, a free() of that arena by libyang zeroes and keeps the memory (see __wrap_free), so that the
- *                    use of the dangling record pointer has a deterministic effect: the thread's errors are gone
+ *                    then report whether the error table arena (err_ht->recs) was reallocated meanwhile (informational:
+ *                    the records themselves are separate heap cells since 75f292f). While the thread waits, a free() of
+ *                    that arena by libyang zeroes and keeps the memory (release build only, see __wrap_free): code that
+ *                    still used a pointer into the arena would deterministically lose the thread's errors
  *       Z<k>         arm: at this thread's next call of lydict_insert_zc increment the counter and wait until it is >= k
  *     Every thread ends with ly_err_clean(), releases the dictionary references it still holds and frees its trees.
  *
@@ -46,7 +47,8 @@
  *   lock=<table accesses checked>:<accesses without the table's lock held>   (dict.hash_tab under dict.lock, err_ht under
  *        lyb_hash_lock; recorded by the --wrap wrappers below)
  *   pok=<parse operations that gave a valid tree and passed the whole pipeline, alone>/<parse operations>
- *   dangling=<times the H hook saw the arena reallocated between ly_err_get_rec()'s unlock and the caller's dereference>
+ *   dangling=<times the H hook saw the arena reallocated between ly_err_get_rec()'s unlock and the caller's use of the
+ *        record (informational)>
  *   res=...  (flag v)    left=<hex>  (the first strings left in the dictionary)
  *   tsan=<n>[|kind~frames of stack 1/frames of stack 2]*   (ThreadSanitizer build only; reports parsed from stderr)
  *
@@ -149,9 +151,12 @@ static __thread int nheld;
 static __thread int arm_unlock = -1, arm_zc = -1;
 static __thread int in_hook;
 
-/* H hook: the arena of err_ht that the armed thread's record pointer points into. When libyang frees it, it is zeroed and
- * kept (never given back to the allocator) instead: a later dereference of the dangling pointer then deterministically
- * reads rec->err == NULL, i.e. the thread's errors are gone, instead of whatever the allocator left there */
+/* H hook: the arena of err_ht at the moment the armed thread left ly_err_get_rec(). Since /repo commit 75f292f the arena
+ * only holds pointers to separately allocated records and nothing outside lyb_hash_lock may point into it. To keep a
+ * regression of that fix visible on the release build, the arena is zeroed and kept (never given back to the allocator)
+ * when libyang frees it during the hook: a use of a pointer into it then deterministically reads NULL (the thread's errors
+ * are gone: DIFF against the run alone) instead of whatever the allocator left there. Correct code never reads the freed
+ * arena, so the trick cannot hide anything from the result comparison; under ThreadSanitizer it is switched off */
 static void *q_target;
 static size_t q_size;
 static long q_hits;
@@ -161,12 +166,16 @@ void __real_free(void *p);
 void
 __wrap_free(void *p)
 {
+#ifndef CONC_TSAN
+    /* not under ThreadSanitizer: there the memory is really freed, so that a use of a pointer into it is reported as the
+     * heap-use-after-free it is */
     if (p && (p == __atomic_load_n(&q_target, __ATOMIC_ACQUIRE))) {
         memset(p, 0, q_size);
         __atomic_store_n(&q_target, NULL, __ATOMIC_RELEASE);
         __atomic_add_fetch(&q_hits, 1, __ATOMIC_RELAXED);
         return;
     }
+#endif
     __real_free(p);
 }
 
